@@ -117,11 +117,19 @@ def stopsNumber : Item → Bool
   | .fixed .timezoneOffset | .fixed .timezoneOffsetColon => true      -- start with a sign
   | _ => false
 
-/-- between a variable-width number and the next item there is a separator that is not a digit -/
+/-- a literal that starts with a dot (it would be taken for the start of an omitted `%.f` fraction) -/
+def startsWithDot : Item → Bool
+  | .literal (46 :: _) => true
+  | _ => false
+
+/-- between a variable-width number and the next item there is a separator that is not a digit; and
+`%.f` (which prints nothing for a whole second) is not followed by a literal dot -/
 def separated : List Item → Bool
   | [] => true
   | [_] => true
-  | a :: b :: rest => (selfDelimiting a || stopsNumber b) && separated (b :: rest)
+  | a :: b :: rest =>
+    (selfDelimiting a || stopsNumber b) && (!(a == .fixed .nanosecond) || !startsWithDot b) &&
+      separated (b :: rest)
 
 /-- some `%Y` (resp. `%G`) is directly followed by something that may start with a digit: only the
 fixed four-digit rendering can be told apart then -/
@@ -133,9 +141,14 @@ def yearTouchesDigits (n : Numeric) : List Item → Bool
      | .numeric m _ => decide (m = n) && !stopsNumber b
      | _ => false) || yearTouchesDigits n (b :: rest)
 
+/-- a century without a two-digit year (and without the full year) is not a year -/
+def groupUsable (y q r : Bool) : Bool := !(q && !y && !r)
+
 /-- the item lists of the family, per target type -/
 def Unambiguous (is : List Item) (t : Target) : Prop :=
   (∀ it ∈ is, invertible it = true) ∧ separated is = true ∧
+  groupUsable (carries is).year (carries is).yearDiv (carries is).yearMod = true ∧
+  groupUsable (carries is).isoYear (carries is).isoYearDiv (carries is).isoYearMod = true ∧
   let c := carries is
   match t with
   | .date => fullDate c = true ∧ c.timestamp = false
@@ -222,21 +235,36 @@ def exprStamp (is : List Item) (v : Value) : Prop :=
 instance (is : List Item) (v : Value) : Decidable (exprStamp is v) := by
   unfold exprStamp; exact inferInstance
 
+/-- digits a fraction item prints (`%.f` prints the exact fraction) -/
+def itemFracDigits : Item → Option Nat
+  | .numeric .nanosecond _ | .fixed .nanosecond | .fixed .nanosecond9 | .fixed .nanosecond9NoDot => some 9
+  | .fixed .nanosecond6 | .fixed .nanosecond6NoDot => some 6
+  | .fixed .nanosecond3 | .fixed .nanosecond3NoDot => some 3
+  | _ => none
+
+/-- number of fraction digits the items print: 9 for `%f`, `%.f` (exact), `%.9f`, `%9f`; 6; 3; 0 -/
+def fracDigits (is : List Item) : Nat :=
+  is.foldl (fun acc it => max acc ((itemFracDigits it).getD 0)) 0
+
+/-- the fraction cut to `k` digits, in nanoseconds -/
+def cutFrac (frac : Int) (k : Nat) : Int :=
+  frac % 1000000000 / (10 ^ (9 - k) : Nat) * (10 ^ (9 - k) : Nat)
+
+/-- fraction items of different precision in one format all describe the same fraction (otherwise
+the reader gets contradicting nanosecond fields) -/
+def exprFrac (is : List Item) (v : Value) : Prop :=
+  onSome (shown v).2.1 fun t =>
+    ∀ it ∈ is, onSome (itemFracDigits it) fun k => cutFrac t.frac k = cutFrac t.frac (fracDigits is)
+instance (is : List Item) (v : Value) : Decidable (exprFrac is v) := by
+  unfold exprFrac; exact inferInstance
+
 /-- the value lies in the range the format's reader widths can carry -/
 def expressible (is : List Item) (v : Value) : Prop :=
-  exprYears is v ∧ exprLeap v ∧ exprOffset is v ∧ exprStamp is v
+  exprYears is v ∧ exprLeap v ∧ exprOffset is v ∧ exprStamp is v ∧ exprFrac is v
 instance (is : List Item) (v : Value) : Decidable (expressible is v) := by
   unfold expressible; exact inferInstance
 
 /-! ### the precision a format prints -/
-
-/-- number of fraction digits the items print: 9 for `%f`, `%.f` (exact), `%.9f`, `%9f`; 6; 3; 0 -/
-def fracDigits (is : List Item) : Nat :=
-  is.foldl (fun acc it => max acc (match it with
-    | .numeric .nanosecond _ | .fixed .nanosecond | .fixed .nanosecond9 | .fixed .nanosecond9NoDot => 9
-    | .fixed .nanosecond6 | .fixed .nanosecond6NoDot => 6
-    | .fixed .nanosecond3 | .fixed .nanosecond3NoDot => 3
-    | _ => 0)) 0
 
 /-- a time cut to what the items print: without `%S` the second (and a leap second) is dropped;
 the fraction is cut to the printed digits; a printed leap second (`60`) is kept -/
@@ -244,8 +272,7 @@ def truncTime (is : List Item) (t : Time) : Time :=
   let c := carries is
   if c.second = false then ⟨t.secs / 60 * 60, 0⟩
   else
-    let unit : Int := 10 ^ (9 - fracDigits is)
-    let ns := t.frac % 1000000000 / unit * unit
+    let ns := cutFrac t.frac (fracDigits is)
     ⟨t.secs, if t.frac ≥ 1000000000 then 1000000000 + ns else ns⟩
 
 /-- the value cut to the precision the format prints; `none` where the cut value does not exist
@@ -269,5 +296,145 @@ def truncate_to_precision (is : List Item) (v : Value) : Option Value :=
          | _ => none)
       | .panic => none
     else some (.zoned ⟨⟨z.utc.date, ⟨z.utc.time.secs, 0⟩⟩, off'⟩)
+
+/-! ### the fields of a value, item by item
+
+What the value shows to the formatter is a context (date, time, offset with its name).  `fieldCall` is the
+setter call the *reader* has to make for an item so that the record receives exactly the item's field
+of the value: the number the documentation assigns to the specifier, the month / weekday / half of the
+day a name stands for, the fraction cut to the printed digits, the offset as printed (rounded to the
+minute).  `item_inverts` (Props/C13) says the reader makes exactly this call. -/
+
+structure Ctx where
+  date : Option Date
+  time : Option Time
+  off : Option (List Nat × Int)
+
+/-- the context a value shows (`DateTime`: its local reading, the offset's `Display` as name) -/
+def ctxOf (v : Value) : Ctx :=
+  let s := shown v
+  ⟨s.1, s.2.1, s.2.2.map fun o => (Format.fixedOffsetName o, o)⟩
+
+/-- the number a numeric item denotes for the context; `none` where the context lacks the field or
+an accessor fails -/
+def numVal (c : Ctx) (n : Numeric) : Option Int :=
+  let iso (f : Int → Int) : Option Int :=
+    c.date.bind fun d => match d.iso_week with | .ok w => some (f w) | .panic => none
+  let mon (f : Nat → Int) : Option Int :=
+    c.date.bind fun d => match d.month with | .ok m => some (f m) | .panic => none
+  match n with
+  | .year => c.date.map (·.year)
+  | .yearDiv100 => c.date.map fun d => d.year / 100
+  | .yearMod100 => c.date.map fun d => d.year % 100
+  | .isoYear => iso IsoWeek.year
+  | .isoYearDiv100 => iso fun w => IsoWeek.year w / 100
+  | .isoYearMod100 => iso fun w => IsoWeek.year w % 100
+  | .quarter => mon Format.quarter
+  | .month => mon fun m => m
+  | .day => c.date.bind fun d => match d.day with | .ok x => some (x : Int) | .panic => none
+  | .weekFromSun => c.date.map fun d => Format.weeks_from d .sun
+  | .weekFromMon => c.date.map fun d => Format.weeks_from d .mon
+  | .isoWeek => iso IsoWeek.week
+  | .numDaysFromSun => c.date.map fun d => (d.weekday.num_days_from_sunday : Int)
+  | .weekdayFromMon => c.date.map fun d => (d.weekday.number_from_monday : Int)
+  | .ordinal => c.date.map (·.ordinal)
+  | .hour => c.time.map (·.hour)
+  | .hour12 => c.time.map fun t => t.hour12.2
+  | .minute => c.time.map (·.minute)
+  | .second => c.time.map fun t => t.second + t.nanosecond / 1000000000
+  | .nanosecond => c.time.map fun t => t.nanosecond % 1000000000
+  | .timestamp =>
+    match c.date, c.time with
+    | some d, some t =>
+      (match NaiveDT.timestamp ⟨d, t⟩ with
+       | .ok ts => some (ts - (c.off.map (·.2)).getD 0)
+       | .panic => none)
+    | _, _ => none
+
+/-- the setter call the reader has to make for an item -/
+def fieldCall (c : Ctx) : Item → Option (Parsed → PRes Parsed)
+  | .literal _ | .space _ => some .ok
+  | .numeric n _ => (numVal c n).map fun v p => (Parse.numericSpec n).2.2 p v
+  | .fixed .shortMonthName | .fixed .longMonthName =>
+    (numVal c .month).map fun m p => p.set_month m
+  | .fixed .shortWeekdayName | .fixed .longWeekdayName =>
+    c.date.map fun d p => p.set_weekday d.weekday
+  | .fixed .lowerAmPm | .fixed .upperAmPm => c.time.map fun t p => p.set_ampm t.hour12.1
+  | .fixed .nanosecond =>
+    c.time.map fun t p =>
+      if t.nanosecond % 1000000000 = 0 then .ok p else p.set_nanosecond (t.nanosecond % 1000000000)
+  | .fixed .nanosecond3 | .fixed .nanosecond3NoDot =>
+    c.time.map fun t p => p.set_nanosecond (t.nanosecond / 1000000 % 1000 * 1000000)
+  | .fixed .nanosecond6 | .fixed .nanosecond6NoDot =>
+    c.time.map fun t p => p.set_nanosecond (t.nanosecond / 1000 % 1000000 * 1000)
+  | .fixed .nanosecond9 | .fixed .nanosecond9NoDot =>
+    c.time.map fun t p => p.set_nanosecond (t.nanosecond % 1000000000)
+  | .fixed .timezoneOffset | .fixed .timezoneOffsetColon =>
+    c.off.map fun o p => p.set_offset (roundedOffset o.2)
+  | _ => none
+
+/-- what may follow an item's rendering for the reader to stop where the rendering ends: nothing is
+required after literals, names, am/pm, offsets, the one-digit and the dot-less fraction items; a
+greedy number needs the end of the text or a non-digit, unless it is zero-padded to the reader's
+width (for `%Y`/`%G`: a year 0–9999); a white-space item needs a non-blank; `%.f` also needs that no
+dot follows -/
+def RestOk (c : Ctx) : Item → List Nat → Prop
+  | .literal _, _ => True
+  | .space _, rest => Scan.wsLen rest = 0
+  | .numeric .quarter _, _ | .numeric .numDaysFromSun _, _ | .numeric .weekdayFromMon _, _ => True
+  | .numeric .timestamp _, rest => startsNonDigit rest = true ∨ rest = []
+  | .numeric .year pad, rest =>
+    (startsNonDigit rest = true ∨ rest = []) ∨ (pad = .zero ∧ ∀ v, numVal c .year = some v → 0 ≤ v ∧ v ≤ 9999)
+  | .numeric .isoYear pad, rest =>
+    (startsNonDigit rest = true ∨ rest = []) ∨ (pad = .zero ∧ ∀ v, numVal c .isoYear = some v → 0 ≤ v ∧ v ≤ 9999)
+  | .numeric _ pad, rest => (startsNonDigit rest = true ∨ rest = []) ∨ pad = .zero
+  | .fixed .nanosecond, rest => (startsNonDigit rest = true ∨ rest = []) ∧ ∀ t, rest ≠ 46 :: t
+  | .fixed .nanosecond3, rest | .fixed .nanosecond6, rest | .fixed .nanosecond9, rest =>
+    startsNonDigit rest = true ∨ rest = []
+  | _, _ => True
+
+/-- a literal whose first byte is a visible ASCII character -/
+def visibleLiteral : Item → Bool
+  | .literal (b :: _) => decide (b < 128) && !((decide (9 ≤ b) && decide (b ≤ 13)) || b == 32)
+  | _ => false
+
+/-- items whose reader skips leading white space itself -/
+def leadInsensitive : Item → Bool
+  | .numeric _ _ | .space _ | .fixed .timezoneOffset | .fixed .timezoneOffsetColon => true
+  | _ => false
+
+/-- what may follow a white-space item in the part of the family that is proved: an item whose reader
+skips white space anyway (numbers, offsets), a visible literal, a name, am/pm, or the end -/
+def afterSpaceOk : Item → Bool
+  | .fixed .shortMonthName | .fixed .longMonthName | .fixed .shortWeekdayName | .fixed .longWeekdayName
+  | .fixed .lowerAmPm | .fixed .upperAmPm => true
+  | it => leadInsensitive it || visibleLiteral it
+
+def spaceSafe : List Item → Bool
+  | [] => true
+  | [_] => true
+  | .space _ :: b :: rest => afterSpaceOk b && spaceSafe (b :: rest)
+  | _ :: b :: rest => spaceSafe (b :: rest)
+
+/-- ASCII white space (what `%t`, `%n` and blanks in a format string are) -/
+def asciiWs (b : Nat) : Bool := (decide (9 ≤ b) && decide (b ≤ 13)) || b == 32
+
+/-- the invertible items for which `item_inverts` is proved: all of them except white-space items
+that contain non-ASCII white space and the `Z`-printing offset items (no specifier produces those) -/
+def provedItem : Item → Bool
+  | .literal _ => true
+  | .space s => s.all asciiWs
+  | .numeric _ _ => true
+  | .fixed .shortMonthName | .fixed .longMonthName | .fixed .shortWeekdayName | .fixed .longWeekdayName
+  | .fixed .lowerAmPm | .fixed .upperAmPm | .fixed .nanosecond | .fixed .nanosecond3 | .fixed .nanosecond6
+  | .fixed .nanosecond9 | .fixed .nanosecond3NoDot | .fixed .nanosecond6NoDot | .fixed .nanosecond9NoDot
+  | .fixed .timezoneOffset | .fixed .timezoneOffsetColon => true
+  | _ => false
+
+/-- the item can carry its field of the context at all: a century is read with two digits -/
+def ItemExpr (c : Ctx) : Item → Prop
+  | .numeric .yearDiv100 _ => ∀ v, numVal c .year = some v → 0 ≤ v ∧ v ≤ 9999
+  | .numeric .isoYearDiv100 _ => ∀ v, numVal c .isoYear = some v → 0 ≤ v ∧ v ≤ 9999
+  | _ => True
 
 end Chrono.Spec
